@@ -7,7 +7,7 @@ from harness.runner import first_per_clause, pmap
 
 def corpus(ctx):
     rng = ctx.rng('sup')
-    n = 250 if ctx.quick else 3000
+    n = 250 if ctx.quick else 12000
     items = []
     for i in range(n):
         g = gen_graph.random_graph(rng, nmin=4, nmax=9, max_space=16, max_ch=3, n_inc=(0, 1), p_shared=0)
